@@ -173,6 +173,9 @@ def check(run, record_expected=False):
     import multiprocessing as mp
 
     ded = deductive.run_deductive(run, KEYS)
+    if not record_expected:
+        from vf.props import C02
+        deductive.add_evaluated(run, ded, C02.nq_scalars(), "doctrans.defaults_utils:needs_quoting")  # the ast-walk half of needs_quoting, by evaluation
     if record_expected:
         return ded
     # ---- bounded companion: the same contracts at run time
